@@ -12,6 +12,7 @@ import FlexModel.Geo.NetFlood
 import Generated.Mib
 import FlexModel.Geo.RouterSecLemmas
 import Generated.RouterRx
+import FlexModel.Geo.RouterDplConc
 
 namespace Props.C06
 open FlexModel.Geo
@@ -649,5 +650,111 @@ example :
     StaysBuffered w (5, 7) (recvW w {} { sec := true, m := 9, p := g, cbRaises := true } { inside := true } 1000).1
       ((ops.drop 1).take 3) := by
   decide
+
+/-! ## Round 5: the CBF copy is assembled on the RECEIVE path; two receive threads and the duplicate packet list -/
+
+/-- LATE ASSEMBLY LOSES THE ENVELOPE (why `_forward_pdu` must be called by the forwarders of the receive path only - the last
+conjunct of `rx_context_discipline_of_source`, which seeded change C06-m8 breaks by calling it from `_cbf_timeout`): after ANY
+history every receive context is clear (`rx_context_clear_after_every_history`), and the timer thread never had one; so a PDU
+assembled at timer expiry is always the re-assembled plain packet, on whatever thread the timer runs -/
+theorem late_assembly_strips_envelope (w : WCfg) (hf : w.ctxFinally = true) (ops : List WOp) (s : WSt) (h : CtxClear s)
+    (tthr : Nat) (k : Key) : ∀ g ∈ fireLate (wrun w s ops).1 tthr k, ∃ q, g = .plain q := by
+  intro g hg
+  have hc := wrun_ctx_clear w hf ops s h tthr
+  simp only [fireLate] at hg
+  split at hg
+  · simp only [hc, forwardPdu, List.mem_singleton] at hg; exact ⟨_, hg⟩
+  · cases hg
+
+/-- … hence for a packet received SECURED the late assembly never sends the admissible copy: under the hypotheses of
+`cbf_buffers_wire_copy` the stored PDU (what the repaired code sends) is `Basic Header(NH = secured, RHL - 1) + the received
+secured message`, what late assembly sends is not -/
+theorem late_assembly_is_not_the_copy (w : WCfg) (hg : w.c.gacFix = true) (hf : w.ctxFinally = true) (s : WSt) (hs : CtxClear s)
+    (x : Rx) (hsec : x.sec = true) (env : Env) (now : Nat) (k : Key) (ms : Nat)
+    (h : Act.arm k ms ∈ (recvW w s x env now).2.1) (mid : List WOp) (hstay : StaysBuffered w k (recvW w s x env now).1 mid)
+    (tthr : Nat) :
+    (fireW (wrun w (recvW w s x env now).1 mid).1 k).2 = [.secured (x.p.rhl - 1) x.m] ∧
+    fireLate (wrun w (recvW w s x env now).1 mid).1 tthr k ≠ [.secured (x.p.rhl - 1) x.m] := by
+  obtain ⟨_, _, h3⟩ := cbf_buffers_wire_copy w hg s x env now (hs x.thr) k ms h mid hstay
+  simp only [hsec, if_true] at h3
+  refine ⟨h3, ?_⟩
+  intro heq
+  have hc : CtxClear (recvW w s x env now).1 := by
+    have := wstep_ctx_clear w hf s (.rx x env now) hs
+    simpa only [wstep] using this
+  obtain ⟨q, hq⟩ := late_assembly_strips_envelope w hf mid _ hc tthr k (.secured (x.p.rhl - 1) x.m) (by rw [heq]; simp)
+  cases hq
+
+/-- WITNESS (seeded change C06-m8): CBF station with a verify service, a secured GBC (message 9, RHL 3) is buffered; at expiry
+the stored PDU is the secured message behind RHL 2, the late assembly on the timer thread (99) yields the stripped packet -/
+theorem cbf_late_assembly_witness :
+    let c : RCfg := { loct := { self := 1, lifetimeMs := 20000, dplLen := 8 }, cbf := true }
+    let w : WCfg := { c := c, hasVerify := true }
+    let g : Pkt := { kind := .gbc, rhl := 3, mhl := 10, so := 5, soPV := { time := 1000 }, sn := 7 }
+    let s := (wrun w {} [WOp.rx { sec := true, m := 9, p := g } { inside := true } 1000]).1
+    (fireW s (5, 7)).2 = [.secured 2 9] ∧ fireLate s 99 (5, 7) = [.plain (fwd g)] ∧ fireLate s 0 (5, 7) = [.plain (fwd g)] := by
+  decide
+
+section TwoThreads
+open FlexModel.Geo.LocTConc FlexModel.Geo.RouterDplConc
+
+/-- regenerated from the SOURCE (harness/gen_locks.py → `Generated.Locks.shape`): `LocationTable.refresh_table` is exactly ONE
+`loc_t_lock` section touching `loc_t` - snapshot, ageing and replacement of the table are one atomic block for every other
+receive thread (seeded change C06-m9 splits it: the obligation no longer checks) -/
+theorem refresh_table_is_one_section : refreshIsOneSection = true := by decide
+
+/-- TWO (or more) RECEIVE THREADS, EVERY SCHEDULE of `loc_t_lock` sections: thread B's section for the first copy of the
+multi-hop packet `(a, sn)` runs on whatever table `s1` the other threads left (C08 invariants only, `(a, sn)` not recorded
+yet); then ANY blocks of other threads (`e2`: purges at clocks ≤ `lim` ≤ PV time + lifetime, receptions of other sources or of
+`(a, sn)` itself, Location Service placeholders), B's closing purge, ANY further such blocks (`e3`).  Whatever the schedule,
+a later copy of `(a, sn)` - any multi-hop kind, any position vector, any thread - finds `sn` in `a`'s duplicate list: `dup`,
+table unchanged (and then `duplicate_is_quiet`: nothing delivered, nothing forwarded).  Rests on `refresh_table` being one
+block (`Blk.refresh`); the source's shape is `refresh_table_is_one_section`. -/
+theorem concurrent_duplicate_is_suppressed (c : Cfg) (hv : c.v = {}) (k : Kind) (hk : k.singleHop = false) (a : Addr) (p : PV)
+    (sn now B lim : Nat) (hp : Win B p.time) (hlim : lim ≤ p.time + c.lifetimeMs) (hnow : Win B now) (hnl : now ≤ lim)
+    (s1 : CS) (hu : Uniq s1.t) (hi : SrcInv a B s1.t)
+    (hnew : lookup s1.t a = none ∨ ∃ e, lookup s1.t a = some e ∧ sn ∉ e.dpl)
+    (e2 e3 : List Blk) (h2 : ∀ b ∈ e2, EnvQ a sn B lim b) (h3 : ∀ b ∈ e3, EnvQ a sn B lim b)
+    (k' : Kind) (hk' : k'.singleHop = false) (q : PV) :
+    core c (crun c s1 (.core k a p sn :: (e2 ++ .refresh now :: e3))).t k' a q sn =
+      ((crun c s1 (.core k a p sn :: (e2 ++ .refresh now :: e3))).t, .dup) :=
+  later_copy_is_duplicate c hv a sn B p _
+    (recorded_after_core c hv k hk a p sn now B lim hp hlim hnow hnl s1 hu hi hnew e2 e3 h2 h3) k' hk' q
+
+/-- non-vacuity: empty table, TSB (5, 100) on thread B; meanwhile another thread purges, receives a GBC of station 6 and a
+concurrent copy of (5, 100), and a Location Service placeholder for 7 is created; hypotheses hold, the later GBC-shaped copy
+of (5, 100) is a duplicate -/
+example :
+    let c : Cfg := { self := 1, lifetimeMs := 20000, dplLen := 2 }
+    let e2 : List Blk := [.refresh 1200, .core .gbc 6 { time := 900 } 3, .core .tsb 5 { time := 1000 } 100]
+    let e3 : List Blk := [.ensure 7, .refresh 21000]
+    (core c (crun c {} (.core .tsb 5 { time := 1000 } 100 :: (e2 ++ .refresh 1100 :: e3))).t .gbc 5 { time := 1000 } 100).2 = .dup := by
+  intro c e2 e3
+  have := concurrent_duplicate_is_suppressed c rfl .tsb rfl 5 { time := 1000 } 100 1100 0 21000
+    (by simp [Win, HALF]) (by decide) (by simp [Win, HALF]) (by decide) {} trivial (by intro e he; cases he) (Or.inl rfl)
+    e2 e3 (by intro b hb; simp only [e2, List.mem_cons, List.mem_nil_iff, or_false] at hb
+              rcases hb with rfl | rfl | rfl <;> simp [EnvQ, Win, HALF, Kind.singleHop])
+    (by intro b hb; simp only [e3, List.mem_cons, List.mem_nil_iff, or_false] at hb
+        rcases hb with rfl | rfl <;> simp [EnvQ, Win, HALF])
+    .gbc rfl { time := 1000 }
+  rw [this]
+
+/-- WITNESS (seeded change C06-m9: `refresh_table` = snapshot under the lock / ageing outside / store under the lock).  Thread
+A (any reception: its opening purge) takes the snapshot of the empty table, thread B receives TSB (5, 100) completely
+(purge, section, purge), A stores its filtered snapshot: station 5's entry and its duplicate list are gone, and the exact
+duplicate of (5, 100) is accepted a second time.  With the one-section shape the same schedule ends with the entry in place
+and the duplicate is `dup`; without anything in between the split shape equals `refresh_table` (`split_sequential`: the
+single-threaded suite cannot see it). -/
+theorem split_refresh_loses_dpl_witness :
+    let c : Cfg := { self := 1, lifetimeMs := 20000, dplLen := 8 }
+    let p : PV := { time := 1000 }
+    let rxB : List SBlk := [.std (.refresh 1000), .std (.core .tsb 5 p 100), .std (.refresh 1000)]
+    let bad := [SBlk.snap] ++ rxB ++ [.store 1000]
+    let good := [SBlk.std (.refresh 1000)] ++ rxB
+    lookup (srun c {} bad).cs.t 5 = none ∧ (core c (srun c {} bad).cs.t .tsb 5 p 100).2 = .ok ∧
+    (core c (srun c {} good).cs.t .tsb 5 p 100).2 = .dup := by
+  decide
+
+end TwoThreads
 
 end Props.C06
